@@ -28,6 +28,8 @@ def box(name, nv):
         return [1.0] * nv, [1.0 + 1e-9] * nv
     if name == 'wide':
         return [-5e5] * nv, [5e5] * nv
+    if name == 'tiny':                       # squares of the coordinates are of the order of EPSILON = 1e-10
+        return [0.0] * nv, [1.2e-5] * nv
     if name == 'mid':                        # thousands wide: far below RPSO's light-speed constant
         return [-2000.0] * nv, [3000.0] * nv
     if name == 'degenerate':
@@ -400,6 +402,18 @@ def hunts(quick, focus, timeout):
                 hp['nsr'] = max(1, min(int(hp.get('nsr', 2)), cfg['n_agents']))
             cfg['hyperparams'] = hp
             cfg['hp_mode'] = 'sweep'
+            cfg['repro'] = False
+            out.append(cfg)
+    # objectives whose values lie on the grid of multiples of EPSILON (1e-10) in a box so small that neighbouring fitnesses differ by
+    # exactly one EPSILON: denominators of the form `a - b + EPSILON` / `total + EPSILON` are probed where they can vanish
+    for o in opts:
+        if o == 'GP' or 'search' not in WR[o]['spaces']:
+            continue
+        for i in range((2 if len(opts) > 3 else 8) if quick else (6 if len(opts) > 3 else 24)):
+            c = {'objective': 'eps_steps', 'ret': ['npscalar', 'pyfloat'][i % 2], 'box': 'tiny', 'agents': [5, 'min', 12, 3][i % 4],
+                 'n_variables': [1, 2, 1, 3][i % 4], 'n_dimensions': 1, 'n_iterations': [5, 10, 3, 8][i % 4], 'draws': 'seeded',
+                 'hp': 'default', 'store_best_only': False, 'hook': 'observe'}
+            cfg = make(o, 'search', c, 9950 + i, timeout)
             cfg['repro'] = False
             out.append(cfg)
     if 'RPSO' in opts:
